@@ -1080,6 +1080,14 @@ mod imp {
             {
                 return Err(ErrorKind::InvalidDelimiter.into());
             }
+            // inside a tag whitespace is skipped before the end delimiter is
+            // looked for, so one that begins with whitespace could never match
+            if [&delims.variable_end, &delims.block_end]
+                .iter()
+                .any(|d| d.starts_with(|c: char| c.is_ascii_whitespace()))
+            {
+                return Err(ErrorKind::InvalidDelimiter.into());
+            }
             let aho_corasick = ok!(AhoCorasick::builder()
                 .build(ok!(delims.validated_start_delims()))
                 .map_err(|_| ErrorKind::InvalidDelimiter.into()));
